@@ -196,6 +196,8 @@ def law_only(ctx, t, a, b_, why):
         cls = t[0]
         if t == ('key',):
             cls = 'key:%s:%s' % ({1: 'secp256k1', 2: 'p256'}.get(a[1][0], 'other'), 'same-x-opposite-parity' if a[1][2:] == b_[1][2:] else 'different-x')
+        if x == 0 or y == 0:
+            cls += ':distinct-values-compare-equal'     # (a different failure than "neither is smaller")
         ctx.mismatch('C03:order-laws:%s' % cls, 'COMPARE of the distinct %s values %s and %s gives %s, in the other direction %s (%s): not a total order' % (t[0], a, b_, x, y, why),
                      {'family': 'law', 'type': t, 'a': a, 'b': b_})
 
